@@ -2,6 +2,7 @@
 # runs every registered check of the given tier, one after the other; prints exit code and wall time
 tier=${1:-quick}; shift
 cd "$(dirname "$0")/.." || exit 9
+[ -n "${VP_RUN_REPO:-}" ] && export VERIF_REPO="$VP_RUN_REPO"
 for id in ${@:-C01 C02 C03 C04 C05 C06 C07 C08 C09 C10 C11 C12 C13 C14 C15 C16 C17 C18 C19 C20}; do
   t0=$(date +%s)
   /venv/bin/python run_check.py $id --tier $tier > /tmp/run_$id.$tier.log 2>&1
